@@ -61,7 +61,12 @@ func init() {
 	ops["SET"] = fixed(-3)
 	ops["SETMETHOD"] = fixed(-2)
 	ops["SETATTR"] = fixed(-2)
-	ops["COPY"] = fixed(-2)
+	ops["COPY"] = opInfo{kind: kFixed, f: func(a, b, c int) int {
+		if c != 0 {
+			return -1 // the count is pushed when the call's value is wanted
+		}
+		return -2
+	}}
 	ops["LOCALGET"] = opInfo{kind: kFixed, delta: +1, slotA: true}
 	ops["LOCALSET"] = opInfo{kind: kFixed, delta: -1, slotA: true}
 	ops["LOCALZERO"] = opInfo{kind: kFixed, delta: 0, slotA: true}
@@ -491,23 +496,6 @@ func (m *Monitor) Step(v *goatlang.VM) {
 		for i := 0; i < f.slots && f.base+i < depth; i++ {
 			f.snapshot = append(f.snapshot, v.VerifStack(f.base+i))
 		}
-	}
-	// operand underflow check for fixed ops: the operands must come from the
-	// operand area, not from the locals
-	if oi.kind == kFixed {
-		d := oi.delta
-		if oi.f != nil {
-			d = oi.f(a, b, c)
-		}
-		need := 0
-		switch {
-		case d < 0:
-			need = -d
-			if opName[op+8] != "POP" && opName[op+8] != "LOCALSET" && opName[op+8] != "GLOBALSET" {
-				need++
-			}
-		}
-		_ = need
 	}
 	// forcing
 	if (oi.kind == kCond || oi.kind == kShort) && depth > f.floor {
